@@ -44,7 +44,8 @@ StepOK(p, e, pos) ==
                    /\ ~(e.f = "variables") /\ ~(KindAt(p) = "callback")
                    /\ ~(KindAt(p) \in {"parameter", "header"} /\ e.f = "content")   \* exactly one entry allowed
                    /\ CountSteps(p, IsPos2) < MaxPos2
-   /\ (pos = 3) => KindAt(p) = "schema" /\ e.f \in {"items", "properties", "additionalProperties"}
+   /\ (pos = 3) => \/ KindAt(p) = "schema" /\ e.f \in {"items", "properties", "additionalProperties"}
+                   \/ KindAt(p) \in {"mediaType", "parameter", "header"} /\ e.f = "examples"
    /\ (KindAt(p) = "schema" /\ e.kind = "schema") => CountSteps(p, IsNest) < MaxNest
    /\ (\E i \in DOMAIN p : IsShallowOp(p[i])) => Len(p) - FirstIdx(p, IsShallowOp) < ShallowBelow
    /\ (\E i \in DOMAIN p : IsCb(p[i])) => /\ Len(p) - FirstIdx(p, IsCb) < CbBelow
@@ -69,14 +70,24 @@ MinDepthTab == [k \in Kinds |-> CHOOSE n \in 0..8 : k \in ReachTab[n] /\ (n = 0 
 CanaryRules == {"ref_ok", "ref_sibling", "ref_ext_sibling", "unresolved", "extra_field",
                 "default_mismatch", "example_mismatch", "in_invalid", "bad_style", "description_missing",
                 "content_missing", "responses_missing", "value_missing", "operation_missing", "url_missing",
-                "default_missing", "dup_param", "examples_mismatch", "value_and_external"}
-CanaryVars == {"min", "ref", "external", "bogus", "number", "body", "form", "simple", "absent", "twice", "query_simple", "both"}
-Canary(lf) == (lf.rule \in CanaryRules \cup {"none"}) /\ lf.var \in CanaryVars
+                "default_missing", "dup_param", "examples_mismatch", "value_and_external", "null_member"}
+CanaryVars == {"min", "ref", "external", "bogus", "number", "body", "form", "simple", "absent", "twice", "query_simple", "both", "null"}
+ModeVars == {m.bad : m \in ModeLeaves \cup MapLeaves} \cup {m.ok : m \in ModeLeaves \cup MapLeaves}
+Canary(lf) == (lf.rule \in CanaryRules \cup {"none"}) /\ lf.var \in CanaryVars \cup ModeVars
+(* a leaf whose verdict depends on the mode of the place: the violation where the mode is in viol, the conforming twin elsewhere; *)
+(* tried at media types and headers everywhere, at schemas where they are the schema of a media type / parameter / header / component *)
+ModeLeafOK(p, lf) ==
+   LET mode == ModeOf(ViaOfPath(p)) IN
+   /\ \A m \in ModeLeaves \cup MapLeaves : /\ ((lf.var = m.bad) => (mode \in m.viol))
+                             /\ ((lf.var = m.ok) => (mode \notin m.viol))
+   /\ (KindAt(p) = "schema" /\ Len(p) > 0) => p[Len(p)].from # "schema"
 
 (* context-dependent leaves *)
 LeafOK(p, lf) ==
    /\ Lean => (Len(p) <= MinDepthTab[KindAt(p)] \/ Canary(lf))
    /\ (lf.var \in PathOnlyVars) => (Len(p) = 2 /\ p[1].f = "components")
+   /\ (lf.var \in ModeVars) => ModeLeafOK(p, lf)
+   /\ (lf.var \in SelfRefVars) => (Len(p) = 2 /\ p[1].f = "components" /\ p[2].f = "schemas" /\ p[2].pos = 1)
    /\ \A i \in DOMAIN p : IsPos2(p[i]) => Len(p) - i < Pos2Tail
    (* a security scheme reference is only meaningful as a component *)
    /\ TRUE
@@ -96,7 +107,7 @@ Closed == leaf # Open
 RuleInForce(rule, opts) ==
    CASE rule \in {"example_mismatch", "examples_mismatch"} -> "DisEx" \notin opts
      [] rule = "default_mismatch" -> "DisDef" \notin opts
-     [] rule = "bad_pattern" -> "DisPat" \notin opts
+     [] rule = "bad_pattern" -> "DisPat" \notin opts /\ "RxAny" \notin opts
      [] rule = "unknown_format" -> "EnFmt" \in opts
      [] rule = "ref_sibling" -> "AllowDesc" \notin opts
      [] rule = "ref_sibling_zzz" -> "AllowZzz" \notin opts
@@ -128,8 +139,11 @@ L2ImpliesL1 ==
    (Closed /\ leaf.rule # "unresolved") =>
       LET d  == Doc(path, leaf)
           Vs == Viol(d)
-          refusers == Refusers(d, Sites(d)) IN
-      \A i \in 1..NOptSets : InScope(Vs, OptSetTab[i]) => ImplAcceptR(d, Vs, refusers, OptSetTab[i]) = Accept(Vs, OptSetTab[i])
+          sites == Sites(d)
+          refusers == Refusers(d, sites)
+          msites == ModeSites(d, sites) IN
+      \A i \in 1..NOptSets : InScope(Vs, OptSetTab[i])
+                               => ImplAcceptR(d, Vs, refusers, sites, msites, OptSetTab[i], NoOptionGiven(OptSeq(i))) = Accept(Vs, OptSetTab[i])
 
 (* every kind is reachable from the root, so every rule has a subject at some location *)
 ASSUME ReachTab[8] = Kinds
